@@ -17,6 +17,7 @@ def gen_case(rng, tier, i):
         c["factor"] = rng.choice([0, 1, 2, 2, 3, 3, 4])
         c["pick"] = rng.randrange(1000)
         c["given"] = rng.random() < 0.4
+        c["distribute"] = rng.choice([None, None, "auto", "equal", "L", "R", "off"])
         return c
     k = rng.choice(["auto", "windows", "names"])
     if k == "auto":
@@ -59,13 +60,20 @@ def graph_ops(case):
         names = (["cp%d_%s" % (j, sn) for j in range(k - 1)] if case["given"] else g._compute_copy_names(sn, k))
     else:
         names = []
-    r = lib.outcome(g.multiply, sn, k, copy_names=(names if k >= 2 else None))
+    pol = case.get("distribute")
+    if pol is None:
+        r = lib.outcome(g.multiply, sn, k, copy_names=(names if k >= 2 else None))
+    else:
+        r = lib.outcome(g.multiply, sn, k, copy_names=(names if k >= 2 else None), distribute=pol)
     if r[0] != "ok":
         return [], []     # what multiply refuses is the oracle's business
     o = lib.outcome(lib.obs_flat, g)
     if o[0] != "ok" or "# INVALID" in o[1]:
         return [], []
-    ops.append(op("g.multiply", sn, k, ",".join(names))); exp.append("ok")
+    if pol is None:
+        ops.append(op("g.multiply", sn, k, ",".join(names))); exp.append("ok")
+    else:
+        ops.append(op("g.multiply", sn, k, ",".join(names), pol)); exp.append("ok")
     ops.append(op("g.obs")); exp.append("ok " + o[1])
     return ops, exp
 
